@@ -269,12 +269,11 @@ class OctetString(per.OctetString):
             if self.minimum <= len(data) <= self.maximum:
                 encoder.append_bit(0)
             else:
+                # Outside the root: as for an unbound size,
+                # fragmented if 16K octets or more.
                 encoder.append_bit(1)
-                encoder.align()
-                encoder.append_length_determinant(len(data))
-                encoder.append_bytes(data)
 
-                return
+                return self.encode_unbound(data, encoder)
 
         if self.number_of_bits is None:
             return self.encode_unbound(data, encoder)
@@ -289,9 +288,7 @@ class OctetString(per.OctetString):
             bit = decoder.read_bit()
 
             if bit:
-                length = decoder.read_length_determinant()
-
-                return decoder.read_bytes(length)
+                return self.decode_unbound(decoder)
 
         if self.number_of_bits is None:
             return self.decode_unbound(decoder)
